@@ -354,6 +354,8 @@ def true_ratio_single(t, xstar):
         xi = t.xi
         s_ = float(t.scale[0])
         a = lam = None
+        if not (np.all(np.isfinite(xstar)) and np.all(np.isfinite(xi)) and np.all(np.isfinite(x))):
+            return None          # e.g. scale > 1: np.sqrt(1 - s²) is NaN and so is every proposal coordinate
         M = np.stack([x, xi], axis=1)
         c_nom0 = math.sqrt(max(0.0, 1 - s_ * s_))
         scale_x = float(np.max(np.abs(xstar))) if len(xstar) else 0.0
@@ -701,6 +703,9 @@ def run_exp(cuqi, kernel, sc, hist, nsteps, scale, x0, script, hook, out, sc2=No
             # option re-assigned after first use: the kernel must use the CURRENT scale consistently
             s.sample(3)
             s.scale = (np.asarray(s.scale) * 0.5) if kernel.endswith("CWMH") else float(np.asarray(s.scale).ravel()[0]) * 0.5
+        elif hist == "rescale-up":
+            s.sample(2)
+            s.scale = 1.5                     # pCN: 1 - scale² < 0 from now on
         elif hist == "repoint-new":
             s.sample(3)
             s.initial_point = np.asarray(s.initial_point, dtype=float) * 0 + np.arange(1, sc.dim + 1) / 2.0
@@ -778,6 +783,9 @@ def run_leg(cuqi, kernel, sc, hist, nsteps, scale, x0, script, hook, out):
         if hist == "adapt":
             res = s.sample_adapt(nsteps + 1 - 2, 2)        # N + Nb = nsteps + 1 states
             nb = 2
+        elif hist.startswith("burnin"):
+            nb = int(hist[6:] or 2)                        # non-adaptive sampling WITH burn-in: sample(N, Nb), Nb > 0
+            res = s.sample(nsteps + 1 - nb, nb)
         else:
             res = s.sample(nsteps + 1)
             nb = 0
@@ -806,6 +814,9 @@ def model_line(t):
         if t.xi is None or len(t.us) != 1:
             return None
         s = float(t.scale[0])
+        if s * s > 1:
+            # np.sqrt(1 - s²) is NaN: all-NaN proposal (model: pcnNanStep)
+            return f"pcnx {k} {xs(t.logd)} {q(s)} {xs(math.log(t.us[0]) if t.us[0] > 0 else -math.inf)} {xs(t.queries[0][1])}"
         c = float(np.sqrt(1 - s ** 2))
         return f"pcn {k} {qv(t.x)} {xs(t.logd)} {q(s)} {q(c)} {qv(t.xi)} {xs(math.log(t.us[0]) if t.us[0] > 0 else -math.inf)} {xs(t.queries[0][1])}"
     if k in ("expMALA", "legMALA"):
@@ -996,6 +1007,19 @@ def compare(ctx, t, out, stats):
 
     if out in ("bad-op", "err-cert"):
         return [("driver", out, "ok")]
+    if toks[0] == "nanprop":
+        # pCN with scale > 1: the model says the proposal is the all-NaN vector
+        stats["pcn-scale-gt-1"] = stats.get("pcn-scale-gt-1", 0) + 1
+        if not np.all(np.isnan(t.queries[0][0])):
+            diffs.append(("proposal-point", "all-NaN (np.sqrt(1 - scale²) with scale > 1)", [float(v) for v in t.queries[0][0]]))
+        if int(toks[1]) != t.acc[0]:
+            diffs.append(("acc", int(toks[1]), t.acc[0]))
+        if not tok_eq_float(toks[2], t.logd1):
+            diffs.append(("cached-logd", toks[2], repr(t.logd1)))
+        want_x1 = t.x if t.acc[0] == 0 else t.queries[0][0]
+        if not np.array_equal(t.x1, want_x1, equal_nan=True):
+            diffs.append(("next-point", [float(v) for v in want_x1], [float(v) for v in t.x1]))
+        return diffs
     if k.endswith("CWMH"):
         accb, x1, logd1, qs = toks
         macc = [int(b) for b in accb.split(",")]
@@ -1276,7 +1300,7 @@ def run(ctx):
                 elif i % 20 == 0 and i > 0:
                     hist = "repoint-inplace"
             else:
-                hist = ["plain", "adapt", "plain"][i % 3]
+                hist = ["plain", "adapt", "burnin" + str(1 + (i // 3) % 4)][i % 3]     # sample(N) / sample_adapt(N, 2) / sample(N, Nb), Nb = 1..4
             x0 = rs.randint(-4, 5, size=sc.dim) / 2.0
             if getattr(sc, "fam", "") in ("support", "posinf") and rs.rand() < 0.7:
                 x0[:] = np.where(np.arange(sc.dim) < max(1, sc.dim - 1), 0.5, x0)          # mostly start inside the support
@@ -1380,7 +1404,7 @@ def run(ctx):
             if k.startswith("exp"):
                 run_exp(cuqi, k, sc, hist, n, scale, x0, script, hook, records)
             else:
-                run_leg(cuqi, k, sc, hist, n if hist == "plain" else 22, scale, x0, script, hook, records)
+                run_leg(cuqi, k, sc, hist, n if hist != "adapt" else 22, scale, x0, script, hook, records)
         except Exception as e:
             ctx.note(f"round-4 scenario raised: {k} {sc.name} {hist}: {repr(e)[:160]}")
             stats["raised"] = stats.get("raised", 0) + 1
@@ -1461,6 +1485,32 @@ def run(ctx):
                     so += 1
                     launch(k, sc, h_, nsteps, 0.5 if not mala else 0.25, rs.randint(-2, 3, size=sc.dim) / 2.0, so)
 
+    # ---- session 3: pCN with a user-supplied scale > 1 (constructor, attribute assignment, state reload): np.sqrt(1 - s²) is
+    # NaN, every proposal is NaN and must be rejected; whatever is proposed instead must be accepted with ITS MH probability
+    for ki, k in enumerate(("expPCN", "legPCN")):
+        rs = np.random.RandomState(9100 * ctx.seed + 7 * ki + 5)
+        for rep_ in range(6 if not thorough else 30):
+            sc = make_scenario(rs, k, 4000 + so, flat=(rep_ % 3 == 0), extreme=("quad_plain" if rep_ % 3 == 1 else None))
+            sc.prior_mean, sc.cls = np.zeros(sc.dim), "std"
+            big = float(rs.choice([1.25, 1.5, 2.0, 3.0]))
+            x0 = rs.randint(-4, 5, size=sc.dim) / 2.0
+            if getattr(sc, "fam", "") in ("support", "posinf"):
+                x0[:] = 0.5
+            so += 1
+            if k == "expPCN":
+                hist = ("fresh", "rescale-up", "reload")[rep_ % 3]
+                launch(k, sc, hist, nsteps + 3, 0.5 if hist == "rescale-up" else big, x0, so)
+            else:
+                launch(k, sc, ("plain", "burnin2")[rep_ % 2], nsteps + 3, big, x0, so)
+            stats["pcn-scale-gt-1-runs"] = stats.get("pcn-scale-gt-1-runs", 0) + 1
+
+    # ---- session 3: whole sampler sessions (loops, burn-in, adaptation / tune, reload, scale assignment) replayed on the
+    # loop model of Model/C02_chain.lean; their transitions join `records` (per-transition tie + oracle)
+    import sys
+    from harness.props import c02_chain
+    B_ = sys.modules[__name__]
+    sessions = c02_chain.generate(B_, ctx, cuqi, records, stats)
+
     # model side
     from harness.core import KnownMap
     open_known = KnownMap([r_ for r_ in ctx.known if r_.get("status", "open") == "open"])
@@ -1492,7 +1542,9 @@ def run(ctx):
                                 {"u": len(r[1].us), "queries": len(r[1].queries)}))
                 continue
             lines.append(ln); idx.append(r[1])
-    outs = ctx.lean.drive(lines)
+    slines, sowners = c02_chain.lines_of(B_, sessions, stats)
+    outs_all = ctx.lean.drive(lines + slines)
+    outs = outs_all[:len(lines)]
     accs = {}
     for t, o in zip(idx, outs):
         ctx.case(f"{t.kernel}:{t.hist}", {"target": t.sc.name, "step": t.step, "x": [float(v) for v in t.x], "u": t.us,
@@ -1518,6 +1570,12 @@ def run(ctx):
         else:
             key = f"{t.kernel}:{t.sc.cls}:tie:{field}"
         ctx.disagree(key, t.desc(), mv, iv, f"model vs implementation: {field}")
+    for r in records:
+        if r[0] == "returned-cache":
+            fk = c02_chain.returned_cache_oracle(B_, ctx, r)
+            if fk is not None and fk not in open_known:
+                new_fail_keys.setdefault(r[1], fk)
+    c02_chain.judge(B_, ctx, cuqi, sowners, outs_all[len(lines):], new_fail_keys, stats)
     # chain continuity (legacy loops) and state reload (experimental)
     for r in records:
         if r[0] == "chain":
